@@ -188,7 +188,10 @@ pub fn check(case: &Case, obs: &mut Obs) -> CheckResult {
                     && matches!(pr, WeakReason::LowShare | WeakReason::NoTraffic)
                     && !v.weak
                 {
-                    vensure!(share_pm > 750.0 / n_conn - 2.0, "leave-threshold", "tick {ti}: left low-share weak at share {:.2} permille, n={}", share_pm, n_conn);
+                    // three quarters of fair share = 750/n permille; the only latitude is the code's whole-permille
+                    // threshold (187 for 187.5 with four links, exact for one to three)
+                    let leave_at = (750.0 / n_conn).floor();
+                    vensure!(share_pm >= leave_at - 1e-6, "leave-threshold", "tick {ti}: left low-share weak at share {:.3} permille, n={} (needs {} = 3/4 of fair share)", share_pm, n_conn, 750.0 / n_conn);
                     transitions += 1;
                 }
             }
@@ -215,7 +218,7 @@ pub fn check(case: &Case, obs: &mut Obs) -> CheckResult {
 
 pub fn run(ctx: &Ctx) -> &'static str {
     ctx.assume("per-link bitrate is written to bitrate.current_bitrate_bps and RTT baselines are built by the real RttTracker::update_estimate; connectivity changes go through mark_for_recovery / the REG3 state change");
-    ctx.assume("share thresholds are checked in real numbers with +1 / -2 permille slack for the code's integer permille rounding; the delay tier is the selected_delay_ms the classifier reports");
+    ctx.assume("share thresholds are checked in real numbers: entering needs share < 250/n + 1 permille (slack for the code's integer rounding), leaving needs share >= floor(750/n) permille (the code's whole-permille threshold: 187 for 187.5 with four links, exact otherwise); the delay tier is the selected_delay_ms the classifier reports");
     ctx.assume("the leave threshold is enforced only on transitions out of a low-share/no-traffic verdict");
     for (file, body) in ctx.replay_files() {
         if !ctx.replay_case::<Case, _>("ticks", &file, &body, check) {
